@@ -2,7 +2,7 @@
    Statements only: each closed by `exact`/a short term, each followed by Print Assumptions.
    Models: Fac/Gauss.v (exact solves), Fac/Basis.v (QSexact_basis_optimalstatus / _dualstatus / QSexact_verify
    without prestep, after exact.c / fct.c / basis.c).  The tie to the code is the correspondence of checks/C12.py. *)
-From QSX Require Import Fac.GaussSound Fac.BasisSound.
+From QSX Require Import Fac.GaussSound Fac.BasisSound Fac.BasisLoad.
 Local Open Scope Q_scope.
 
 (* 1. exact solves under the basis model, all dimensions: an answer is a solution; no answer comes with a
@@ -137,3 +137,106 @@ Theorem C12_returned_basis_count :
   forall P ns B ps ds s, opt_test P ns B ps ds = Some s -> count_basic B = nrows P.
 Proof. exact returned_basis_count. Qed.
 Print Assumptions C12_returned_basis_count.
+
+(* 8. the loader (ILLbasis_load after the repair basis_load_normalise).  The status of every non-basic structural column
+      is normalised against its bounds when the basis is loaded (at-lower without a lower bound -> at-upper / free, ...;
+      Fac/Basis.v [norm_stat], [loaded_basis]); the library's verdict functions are the evaluations of 2.-6. applied to
+      the basis as loaded: [lib_optimalstatus], [lib_dualstatus].  checks/C12.py compares THESE with the real functions.
+      The normalisation changes no basic entry and none of the loader's admissibility tests; it is idempotent and the
+      identity on bases whose statuses name bounds the columns have. *)
+Theorem C12_load_ok_loaded :
+  forall M P ns isR B, load_ok P ns isR (loaded_basis M P B) = load_ok P ns isR B.
+Proof. exact load_ok_loaded. Qed.
+Print Assumptions C12_load_ok_loaded.
+
+Theorem C12_loaded_same_basic_set :
+  forall M P B, (forall j, basicb (loaded_basis M P B) j = basicb B j) /\ Bmat P (loaded_basis M P B) = Bmat P B.
+Proof. intros M P B. split; [intros j; apply basicb_loaded|apply Bmat_loaded]. Qed.
+Print Assumptions C12_loaded_same_basic_set.
+
+Theorem C12_loaded_basis_idem :
+  forall M P B, loaded_basis M P (loaded_basis M P B) = loaded_basis M P B.
+Proof. exact loaded_basis_idem. Qed.
+Print Assumptions C12_loaded_basis_idem.
+
+Theorem C12_loaded_basis_id :
+  forall M P B, (forall j, (j < length (cstat B))%nat -> stat_has_bound M (col P j) (nth j (cstat B) BOther) = true) ->
+    loaded_basis M P B = B.
+Proof. exact loaded_basis_id. Qed.
+Print Assumptions C12_loaded_basis_id.
+
+(* every status of the loaded basis names a bound its column has *)
+Theorem C12_loaded_statuses_have_bounds :
+  forall M P B j, (j < length (cstat B))%nat -> stat_has_bound M (col P j) (stat (loaded_basis M P B) j) = true.
+Proof.
+  intros M P B j Hj. rewrite stat_loaded. apply Nat.ltb_lt in Hj. rewrite Hj. apply norm_stat_has_bound.
+Qed.
+Print Assumptions C12_loaded_statuses_have_bounds.
+
+(* 2'. and 3'. for the library functions *)
+Theorem C12_lib_optimalstatus_iff :
+  forall M P ns isR B, wf_ilp P = true -> forall x pi,
+    load_ok P ns isR B = true ->
+    nonsingular (bm P) (Bmat P (loaded_basis M P B)) ->
+    is_solution (bm P) (Bmat P (loaded_basis M P B)) x (rhsN P (loaded_basis M P B)) ->
+    is_left_solution (bm P) (Bmat P (loaded_basis M P B)) pi (cB P (loaded_basis M P B)) ->
+    (lib_optimalstatus M P ns isR B = VRes true 0 <->
+       primal_feasible_sem M P (loaded_basis M P B) (qnth x) /\ dual_feasible_sem M P ns (loaded_basis M P B) (qnth pi)) /\
+    (lib_optimalstatus M P ns isR B = VRes false 0 <->
+       ~ (primal_feasible_sem M P (loaded_basis M P B) (qnth x) /\ dual_feasible_sem M P ns (loaded_basis M P B) (qnth pi))).
+Proof. exact lib_optimalstatus_iff. Qed.
+Print Assumptions C12_lib_optimalstatus_iff.
+
+Theorem C12_lib_dualstatus_iff :
+  forall M P ns isR B, wf_ilp P = true -> forall g pi,
+    load_ok P ns isR B = true -> nonsingular (bm P) (Bmat P (loaded_basis M P B)) -> g <> PRIMAL_UNBOUNDED ->
+    is_left_solution (bm P) (Bmat P (loaded_basis M P B)) pi (cB P (loaded_basis M P B)) ->
+    (dual_feasible_sem M P ns (loaded_basis M P B) (qnth pi) ->
+       exists d, lib_dualstatus M P ns isR B g = VRes true d /\ d == dual_objective_sem P (loaded_basis M P B) (qnth pi)) /\
+    (~ dual_feasible_sem M P ns (loaded_basis M P B) (qnth pi) -> lib_dualstatus M P ns isR B g = VRes false 0).
+Proof. exact lib_dualstatus_iff. Qed.
+Print Assumptions C12_lib_dualstatus_iff.
+
+Theorem C12_lib_dualstatus_value :
+  forall M P ns isR B, wf_ilp P = true -> forall g d,
+    load_ok P ns isR B = true -> lib_dualstatus M P ns isR B g = VRes true d ->
+    exists pi, is_left_solution (bm P) (Bmat P (loaded_basis M P B)) pi (cB P (loaded_basis M P B)) /\
+               dual_feasible_sem M P ns (loaded_basis M P B) (qnth pi) /\
+               d == dual_objective_sem P (loaded_basis M P B) (qnth pi).
+Proof. exact lib_dualstatus_value. Qed.
+Print Assumptions C12_lib_dualstatus_value.
+
+(* 5'. an 'optimal' verdict of the library IS an optimum: the hypothesis nonbasic_ok on the basis (5.) is gone; what is
+      left is a condition on the LP alone ([lp_bounds_ok]: no column with crossed finite bounds; the logical of every row
+      has a finite lower bound and, for a ranged row, a finite upper bound - the shape the library gives them) *)
+Theorem C12_nonbasic_ok_loaded :
+  forall M P ns isR B, load_ok P ns isR B = true -> lp_bounds_ok M P ns isR = true ->
+    nonbasic_ok M P (loaded_basis M P B) = true.
+Proof. exact nonbasic_ok_loaded. Qed.
+Print Assumptions C12_nonbasic_ok_loaded.
+
+Theorem C12_lib_optimal_is_optimum :
+  forall M P ns isR B, wf_ilp P = true -> lp_bounds_ok M P ns isR = true ->
+    lib_optimalstatus M P ns isR B = VRes true 0 ->
+    exists xB pi,
+      xB_of P (loaded_basis M P B) = Some xB /\ pi_of P (loaded_basis M P B) = Some pi /\
+      check_kkt (inf_sentinel M) P (zfull P (loaded_basis M P B) xB) (yuser P pi)
+                (objval_l (i_cols P) (zfull P (loaded_basis M P B) xB)) = true /\
+      is_optimum (inf_sentinel M) P (qnth (zfull P (loaded_basis M P B) xB))
+                 (objval_l (i_cols P) (zfull P (loaded_basis M P B) xB)).
+Proof. exact lib_optimal_is_optimum. Qed.
+Print Assumptions C12_lib_optimal_is_optimum.
+
+Theorem C12_lib_singular_no_verdict :
+  forall M P ns isR B, load_ok P ns isR B = true -> ~ nonsingular (bm P) (Bmat P (loaded_basis M P B)) ->
+    lib_optimalstatus M P ns isR B = VSingular /\ forall g, lib_dualstatus M P ns isR B g = VSingular.
+Proof. exact lib_singular_verdict. Qed.
+Print Assumptions C12_lib_singular_no_verdict.
+
+(* satisfiable, and the normalisation does something: a bounded column marked free is loaded at-lower *)
+Example C12_lib_hypotheses_satisfiable :
+  wf_ilp exP = true /\ lp_bounds_ok 1000 exP 2 [false; false] = true /\
+  lib_optimalstatus 1000 exP 2 [false; false] exB = VRes true 0 /\
+  loaded_basis 1000 exP {| cstat := [BBasic; BFree]; rstat := [BBasic; BLower] |} =
+    {| cstat := [BBasic; BLower]; rstat := [BBasic; BLower] |}.
+Proof. vm_compute. repeat split. Qed.
